@@ -32,9 +32,38 @@ type effectsInfo struct {
 func moduleFuncs(p *load.Program) []*ssa.Function {
 	p.BuildSSA()
 	var fns []*ssa.Function
-	for f := range ssautil.AllFunctions(p.SSA) {
+	seen := map[*ssa.Function]bool{}
+	var add func(f *ssa.Function)
+	add = func(f *ssa.Function) {
+		if f == nil || seen[f] {
+			return
+		}
+		seen[f] = true
 		if f.Blocks != nil && load.InModule(f) {
 			fns = append(fns, f)
+		}
+		for _, an := range f.AnonFuncs {
+			add(an)
+		}
+	}
+	for f := range ssautil.AllFunctions(p.SSA) {
+		add(f)
+	}
+	// AllFunctions only follows what may be called; methods of unexported types that never
+	// reach an interface would be missed, so add every declared function and method explicitly.
+	for _, sp := range p.SSAPkgs {
+		for _, m := range sp.Members {
+			switch x := m.(type) {
+			case *ssa.Function:
+				add(x)
+			case *ssa.Type:
+				for _, T := range []types.Type{x.Type(), types.NewPointer(x.Type())} {
+					ms := p.SSA.MethodSets.MethodSet(T)
+					for i := 0; i < ms.Len(); i++ {
+						add(p.SSA.MethodValue(ms.At(i)))
+					}
+				}
+			}
 		}
 	}
 	sort.Slice(fns, func(i, j int) bool { return fns[i].String() < fns[j].String() })
